@@ -37,6 +37,7 @@ def traitsByName (elem : Bool) : String → Option (Option Traits)
   | "m8" => if elem then some (some { id := 7, size := 8, init := true, fini := some 2 }) else none
   | "n4" => if elem then some (some { id := 8, size := 4, init := true, fini := some 1 }) else none
   | "f8" => if elem then some (some { id := 9, size := 8, init := false, fini := some 2 }) else none
+  | "q8" => if elem then some (some { id := 10, size := 8, init := true, fini := some 1 }) else none
   | _ => none
 
 def traitsC : Traits := { id := 5, size := 1, init := false, fini := none }
@@ -44,7 +45,7 @@ def traitsC : Traits := { id := 5, size := 1, init := false, fini := none }
 def traitsName : Option Traits → String
   | none => "-"
   | some t => match t.id with
-    | 1 => "p1" | 2 => "p4" | 3 => "p24" | 4 => "z" | 5 => "c" | 6 => "m4" | 7 => "m8" | 8 => "n4" | 9 => "f8"
+    | 1 => "p1" | 2 => "p4" | 3 => "p24" | 4 => "z" | 5 => "c" | 6 => "m4" | 7 => "m8" | 8 => "n4" | 9 => "f8" | 10 => "q8"
     | 11 => "x1" | 12 => "x12" | 13 => "xe" | 14 => "i" | 15 => "d" | 16 => "xm" | 17 => "xp" | _ => "?"
 
 def bufOf (m : State) (h : Nat) : Option Buf := (m.handle h).bind m.buf?
